@@ -942,7 +942,7 @@ fn gen_comment_text(ch: &mut Choices, hostile: bool) -> String {
     if ch.chance(if hostile { 25 } else { 16 }) {
         const ATOMS: &[&str] = &[
             "a", "b", "Z", "0", " ", "e", "t", ", ", ",", ";", "|", "\\", "'", ":", "/", "-", "+", "(", "[", "é", "ü", "ß", "日", "本",
-            "🙂", "e\u{301}", "\u{a0}", "–", "…", ".",
+            "🙂", "e\u{301}", "\u{a0}", "–", "…", ".", "\n", "\r\n", "\t", "\r",
         ];
         const COUNTS: &[usize] = &[1, 2, 3, 4, 5, 7, 8, 9, 12, 15, 16, 17, 20, 24, 31, 32, 33, 38, 39, 40, 41, 42, 48, 63, 64, 65, 79, 80, 81, 100, 127, 128, 129, 200, 255, 256, 257];
         let n = if ch.chance(70) { ch.pick(&COUNTS[..16]) } else { ch.pick(COUNTS) };
